@@ -208,6 +208,9 @@ func runC05(c *Ctx) {
 		for len(work) > 0 {
 			fn := work[len(work)-1]
 			work = work[:len(work)-1]
+			if fn != nil && fn.Origin() != nil {
+				fn = fn.Origin() // an instance of a generic function: its body is the generic one
+			}
 			if fn == nil || styleFns[fn] || fn.Blocks == nil || fn.Pkg != rsp {
 				continue
 			}
@@ -329,6 +332,9 @@ func runC05(c *Ctx) {
 						continue
 					}
 					callee := ci.Common().StaticCallee()
+					if callee != nil && callee.Origin() != nil {
+						callee = callee.Origin()
+					}
 					if callee == nil || len(deferredW[callee]) == 0 || callee == fn {
 						continue
 					}
@@ -351,7 +357,7 @@ func runC05(c *Ctx) {
 		}
 		deferredW = next
 	}
-	if nw < 8 {
+	if nw < 3 {
 		c.viol("C05.R3", "anchor-lost:style-attribute-writes", "", fmt.Sprintf("only %d builder writes found in the style attribute code", nw))
 	}
 	// R7: between the CSS sanitiser and the style attribute there is exactly ONE HTML-escaping layer. The browser
